@@ -81,6 +81,12 @@ VariablesTyped(ir) ==
              \/ \E k \in 1..Len(ir.comps[c].vertices) : \E j \in Uses(ir.comps[c].vertices[k].filters) : ir.comps[c].vertices[k].filters[j].arg.n = ir.vars[v][1]
              \/ \E k \in Folds(ir.comps[c]) : \E j \in Uses(ir.comps[c].items[k].post) : ir.comps[c].items[k].post[j].arg.n = ir.vars[v][1]
 
+\* the recorded type of every variable is the one the SOURCE query implies (Query!ImpliedVarTypes: greatest common subtype of its uses)
+VarsAsImplied(inst, ir) ==
+  LET imp == ImpliedVarTypes(inst) IN
+  /\ {ir.vars[k][1] : k \in 1..Len(ir.vars)} = DOMAIN imp
+  /\ \A k \in 1..Len(ir.vars) : JT(ir.vars[k][2]) = imp[ir.vars[k][1]]
+
 (* ---------------- the shape the source-level query predicts: scope number k (pre-order) is vertex k ---------------- *)
 RECURSIVE Flat(_, _, _)
 Flat(inst, node, ty) ==
@@ -111,7 +117,7 @@ Clauses(inst, ir) ==
      <<"folds precede their contents", FoldsPrecedeContents(ir)>>, <<"edges go from lower to higher vertex ids", EdgesGoUp(ir)>>,
      <<"tags are defined at vertices resolved before their uses", TagsResolvedBeforeUse(ir)>>,
      <<"imported tags are exactly those used inside a fold from outside it (from its enclosing component)", ImportedExactly(ir)>>,
-     <<"every variable use is recorded with a compatible type", VariablesTyped(ir)>>,
+     <<"every variable use is recorded with a compatible type", VariablesTyped(ir) /\ VarsAsImplied(inst, ir)>>,
      <<"the compiled shape is the one the source query predicts", MatchesSource(inst, ir)>> >>
 Judged == ph = 0 \/
   LET inst == Insts[i]  ir == Obs[i].ir  cl == Clauses(inst, ir)
